@@ -159,6 +159,16 @@ def map_cmds(cmds, A, true_arcs=False):
 def gen_pair(rng):
     tol = rng.choice([1e-3, 1e-2, 1e-1, 1.0, 0.05])
     k = rng.random()
+    if rng.random() < 0.05:
+        # the same numbers under the same letters, absolute in one path and relative in the other: different outlines
+        pts = [(float(rng.randint(2, 30)), float(rng.randint(2, 30))) for _ in range(rng.randint(3, 5))]
+        z = rng.random() < 0.6
+        body = " ".join("%s%g,%g" % ("L", x, y) for x, y in pts[1:])
+        d1 = "M%g,%g %s%s" % (pts[0][0], pts[0][1], body, " Z" if z else "")
+        d2 = "M%g,%g %s%s" % (pts[0][0], pts[0][1], body.replace("L", "l"), " z" if z else "")
+        if rng.random() < 0.5:
+            d1, d2 = d2, d1
+        return {"kind": "different:caseflip", "tol": tol, "d1": d1, "d2": d2}
     arcs = rng.random() < 0.3
     s1 = multi_outline(rng, arcs) if rng.random() < 0.5 else base_outline(rng, arcs)
     style = 1 if rng.random() < 0.4 else 0
@@ -235,6 +245,22 @@ def arc_pair(rng):
     """outlines dominated by tilted elliptical arcs (rx != ry, x-axis-rotation != 0), paired with what scaling the end points and
     radii and keeping rotation and flags gives — the image only for translations and uniform positive scalings"""
     tol = rng.choice([1e-3, 1e-2, 0.1])
+    if rng.random() < 0.25:
+        # the x-axis-rotation is an angle, not a length: two large arcs whose rotations differ by less than the tolerance
+        # (as numbers) are far apart as curves; the same pair moved, so that the search runs instead of the identity shortcut
+        tol = rng.choice([0.1, 0.2, 0.5])
+        R = float(rng.choice([400, 1000, 2500]))
+        rot = float(rng.choice([0, 15, 40]))
+        d = round(rng.uniform(0.5, 0.95) * tol, 3) * rng.choice([1, -1])
+        fl = [rng.choice([0, 1]), rng.choice([0, 1])]
+        s1 = [("M", [0.0, 0.0]), ("A", [R, R / 2, rot] + fl + [2 * R, 0.0])]
+        s2 = [("M", [0.0, 0.0]), ("A", [R, R / 2, rot + d] + fl + [2 * R, 0.0])]
+        if rng.random() < 0.4:
+            s1.append(("L", [R, -R])); s2.append(("L", [R, -R]))
+        name = "arcrot:identity"
+        if rng.random() < 0.4:
+            s2 = map_cmds(s2, (1.0, 0.0, 0.0, 1.0, 30.0, -20.0)); name = "arcrot:translate"
+        return {"kind": "arcimage:" + name, "tol": tol, "d1": d_of(s1, 0, rng), "d2": d_of(s2, 0, rng)}
     x, y = float(rng.randint(-10, 10)), float(rng.randint(-10, 10))
     rx, ry = float(rng.randint(4, 12)), float(rng.randint(2, 7))
     if rx == ry:
@@ -438,6 +464,12 @@ def verify(A, g1, g2, tol):
             worst = max([poly_dist(q, P2) for q in P1[::4]] + [poly_dist(q, P1) for q in P2[::4]])
             if worst > lim:
                 return "arc %d: the image of the first arc and the second arc are %.4g apart (extent %.4g, tolerance %g)" % (i, worst, ext, tol)
+            if b == 0 and c == 0 and a == d and a > 0 and len(P1) == len(P2):
+                # a translation / uniform scaling keeps the arc's own parametrisation: the sampled points correspond one to one
+                # (the polyline distance above allows 1% of the extent for the sampling; this comparison needs no such slack)
+                pw = max(math.hypot(q1[0] - q2[0], q1[1] - q2[1]) for q1, q2 in zip(P1, P2))
+                if pw > 3 * tol + 1e-9 * ext:
+                    return "arc %d: corresponding points of the image of the first arc and of the second arc are %.4g apart (tolerance %g)" % (i, pw, tol)
             cur1, cur2 = (v1[-2], v1[-1]), (v2[-2], v2[-1])
             continue
         p0, q0 = (v1[0], v1[1]), (v2[0], v2[1])
